@@ -238,9 +238,10 @@ pub fn shrink(start: Trace, test: &mut dyn FnMut(&Trace) -> bool, b: &mut Budget
             let mut val = serde_json::to_value(&cur.steps[i]).unwrap();
             let mut nums = Vec::new();
             shrink_numbers(&mut val, &mut Vec::new(), &mut nums);
+            let floor = if matches!(cur.steps[i], Step::Resize(..)) { 1 } else { 0 };
             for (path, x) in nums {
                 for c in [0u64, 1, 2, x / 2, x.saturating_sub(1)] {
-                    if c >= x || !b.ok() {
+                    if c >= x || c < floor || !b.ok() {
                         continue;
                     }
                     let mut v2 = serde_json::to_value(&cur.steps[i]).unwrap();
